@@ -86,7 +86,9 @@ impl OutputFormat for TundraDraw {
 
                 // characters 1..=6 would be read as commands: they always go with a color change
                 let mut cmd = 0;
-                let write_foreground = buf.palette.get_color(attr.get_foreground()).get_rgb() != buf.palette.get_color(cur_attr.get_foreground()).get_rgb()
+                // the colour a foreground is displayed (and stored) with: bold folds 0..7 to 8..15
+                let shown = |a: TextAttribute| if a.is_bold() && a.get_foreground() < 8 { a.get_foreground() + 8 } else { a.get_foreground() };
+                let write_foreground = buf.palette.get_color(shown(attr)).get_rgb() != buf.palette.get_color(shown(cur_attr)).get_rgb()
                     || attr.is_bold() != cur_attr.is_bold()
                     || (1..=6).contains(&ch)
                     || first;
@@ -103,10 +105,7 @@ impl OutputFormat for TundraDraw {
                     result.push(cmd);
                     result.push(ch as u8);
                     if write_foreground {
-                        let mut fg = cur_attr.get_foreground();
-                        if cur_attr.is_bold() && fg < 8 {
-                            fg += 8;
-                        }
+                        let fg = shown(cur_attr);
                         colors.insert(fg);
                         let rgb = buf.palette.get_rgb(fg);
                         result.push(0);
